@@ -27,6 +27,13 @@ CLAIMED['C05'] = ('TLC-generated documents parsed by /repo; identity-resolved pr
                   'by TLC at design level on every generated document',
                   'trusted: TLC, pv/project.py (identity resolution), pv/surface.py',
                   'DESIGN.md 2.3, 5 (C05)')
+CLAIMED['C06'] = ('TLC-generated single-fault documents (GenFault.tla: 13 fault kinds x position x spelling); design-level '
+                  'invariant Ruled; outcome class of the real parser compared by TLC with Doc!ParseDoc',
+                  'each fault kind is an operator on documents in the specification; TLC proves on every generated instance that '
+                  'the two-phase build model rejects it with the rule\'s error class, and validates the real parser\'s outcome '
+                  '(exception class) for every printed form against that model',
+                  'trusted: TLC, pv/surface.py, exception class names; messages are ignored',
+                  'DESIGN.md 2.3, 5 (C06)')
 NOT_YET = {}
 
 def main():
